@@ -374,7 +374,7 @@ def apply_patches(base, patches):
         import zlib
         for x in touched:
             h = (x // 512) * 512
-            if h in done or bytes(img[h:h + 8]) != b'EFI PART' or not (h <= x < h + 92):
+            if h in done or h + 92 > len(img) or bytes(img[h:h + 8]) != b'EFI PART' or not (h <= x < h + 92):
                 continue
             done.add(h)
             hsize = min(struct.unpack_from('<L', img, h + 12)[0], 512)
